@@ -82,6 +82,17 @@ CHECKS = {
              '05 01 00, exactly one length-exact request after 05 00, none after any other method reply.',
         note='Trusted: refs/socks5.py. One genuine defect is a known finding (IPv6 CONNECT truncates the address; pinned by '
              'the repository\'s own test_socks_ipv6).'),
+    'C20': dict(
+        engine=E2, design='DESIGN.md section 4 / C20',
+        technique='explicit-state BFS over ADDRMAP-event / clock-advance histories on the real AddrMap under a virtual clock, '
+                  'canonical-state dedup, dict reference model checked after every event',
+        text='Bounded exhaustive model checking: events = ADDRMAP lines for 2 names x 2 addresses x 6 expiries (past, 5 s, 1 h, '
+             '25 h, 3 d, NEVER) x 2 spellings (local-time field only / EXPIRES= with a deliberately different local field), '
+             '<error> mappings, clock advances {1 s, 10 s, 2 h, 26 h, 4 d}; all histories to depth 4 (quick) / 5 (thorough) '
+             'modulo canonical state; after every event: lookups by name and by address and the listener calls of that step '
+             'against the reference.',
+        note='Trusted: the datetime shim (utcnow follows the scheduler clock), TZ=UTC. TorState._addr_map only forwards to '
+             'AddrMap.update.'),
 }
 
 PENDING = {}
